@@ -176,90 +176,102 @@ func c06Pow(p *load.Prog, r *report.Report, m *elemModel, s, t *absint.Poly) {
 	pos := p.Pos(fn.Pos())
 	nT := absint.TConst(FN.M)
 	cs, ct := absint.CanonOf(FN, s), absint.CanonOf(FN, t)
-	seen := map[string]int{}
-	explore(p, absint.Config{}, fn, func(it *absint.Interp) []absint.Value {
-		return []absint.Value{ptr(m.newScalar(it, "s", s)), ptr(m.newScalar(it, "t", t))}
-	}, func(res *absint.PathResult) {
-		it := res.It
-		tz, dz := known(it, absint.ISZ(t))
-		t1, d1 := known(it, absint.ISZ(t.Sub(pInt(FN, 1))))
-		class := "general exponent"
-		switch {
-		case dz && tz:
-			class = "t = 0"
-		case d1 && t1:
-			class = "t = 1"
-		}
-		seen[class]++
-		construct := "Scalar.Pow (" + class + ")"
-		if seen[class] > 1 {
-			construct = fmt.Sprintf("Scalar.Pow (%s, padding case %d)", class, seen[class])
-		}
-		if res.Exit == "panic" {
-			r.Fail("C06.pow", construct, p.Pos(res.PanicAt), "Pow can panic: "+absint.Show(res.Panic)+" "+guardString(res))
-			return
-		}
-		if res.Exit != "return" {
-			r.Undecided("C06.pow", construct, pos, res.Abort)
-			return
-		}
-		if reportEvents(p, r, "C06.pow", construct, res) {
-			return
-		}
-		got, why := m.scalarVal(it, it.InputRoots()[0])
-		if why != "" {
-			r.Undecided("C06.pow", construct, pos, why)
-			return
-		}
-		switch class {
-		case "t = 0":
-			r.Check(got.Equal(pInt(FN, 1)), "C06.pow", construct, pos, "s^0 = 1", fmt.Sprintf("s^0 gives %s", got))
-		case "t = 1":
-			r.Check(got.Equal(s), "C06.pow", construct, pos, "s^1 = s", fmt.Sprintf("s^1 gives %s", got))
-		default:
-			want := absint.EmbTerm(FN, absint.ModExp(cs, ct, nT))
-			// paths that fix the base (fast paths for s = 0 and s = 1): 0^t = 0 for t != 0, 1^t = 1
-			got, want = it.DeepApplyPoly(got), it.DeepApplyPoly(want)
-			if sz, dsz := known(it, absint.ISZ(s)); dsz && sz && dz && !tz {
-				want = pInt(FN, 0)
-			} else if s1, ds1 := known(it, absint.ISZ(s.Sub(pInt(FN, 1)))); ds1 && s1 {
-				want = pInt(FN, 1)
+	runPow := func(aliased bool, t *absint.Poly, ct *absint.Term, tag string) {
+		seen := map[string]int{}
+		explore(p, absint.Config{}, fn, func(it *absint.Interp) []absint.Value {
+			if aliased {
+				sc := ptr(m.newScalar(it, "s", s))
+				return []absint.Value{sc, sc}
 			}
-			ok := got.Equal(want)
-			detail := fmt.Sprintf("receiver is %s; expected (Canon s)^(Canon t) mod n through math/big.Exp", got)
-			if base, T, isExp := absint.ExpOf(got); isExp && !ok {
-				// a native exponentiation over the Fiat arithmetic: the receiver is the formal power s^T; T must be the
-				// canonical integer of t, compared in the basis of the exponent's digit tests (as in C01)
-				bitsOfT := absint.TInt(0)
-				for i := 0; i < 256; i++ {
-					bitsOfT = bitsOfT.Add(absint.BIT(ct, i).Scale(new(big.Int).Lsh(big.NewInt(1), uint(i))))
+			return []absint.Value{ptr(m.newScalar(it, "s", s)), ptr(m.newScalar(it, "t", t))}
+		}, func(res *absint.PathResult) {
+			it := res.It
+			tz, dz := known(it, absint.ISZ(t))
+			t1, d1 := known(it, absint.ISZ(t.Sub(pInt(FN, 1))))
+			class := "general exponent"
+			switch {
+			case dz && tz:
+				class = "t = 0"
+			case d1 && t1:
+				class = "t = 1"
+			}
+			seen[class]++
+			construct := "Scalar.Pow (" + class + ")" + tag
+			if seen[class] > 1 {
+				construct = fmt.Sprintf("Scalar.Pow (%s, padding case %d)%s", class, seen[class], tag)
+			}
+			if res.Exit == "panic" {
+				r.Fail("C06.pow", construct, p.Pos(res.PanicAt), "Pow can panic: "+absint.Show(res.Panic)+" "+guardString(res))
+				return
+			}
+			if res.Exit != "return" {
+				r.Undecided("C06.pow", construct, pos, res.Abort)
+				return
+			}
+			if reportEvents(p, r, "C06.pow", construct, res) {
+				return
+			}
+			got, why := m.scalarVal(it, it.InputRoots()[0])
+			if why != "" {
+				r.Undecided("C06.pow", construct, pos, why)
+				return
+			}
+			switch class {
+			case "t = 0":
+				r.Check(got.Equal(pInt(FN, 1)), "C06.pow", construct, pos, "s^0 = 1", fmt.Sprintf("s^0 gives %s", got))
+			case "t = 1":
+				r.Check(got.Equal(s), "C06.pow", construct, pos, "s^1 = s", fmt.Sprintf("s^1 gives %s", got))
+			default:
+				want := absint.EmbTerm(FN, absint.ModExp(cs, ct, nT))
+				// paths that fix the base (fast paths for s = 0 and s = 1): 0^t = 0 for t != 0, 1^t = 1
+				got, want = it.DeepApplyPoly(got), it.DeepApplyPoly(want)
+				if sz, dsz := known(it, absint.ISZ(s)); dsz && sz && dz && !tz {
+					want = pInt(FN, 0)
+				} else if s1, ds1 := known(it, absint.ISZ(s.Sub(pInt(FN, 1)))); ds1 && s1 {
+					want = pInt(FN, 1)
 				}
-				Tc := absint.CompleteFamilies(it.DeepApplyTerm(T))
-				d := Tc.Sub(absint.DigitBasis(it.DeepApplyTerm(bitsOfT), Tc))
-				dc, isC := d.IsConst()
-				ok = base.Equal(s) && isC && dc.Sign() == 0
-				detail = fmt.Sprintf("receiver is the power s^T computed by a native exponentiation; T differs from the canonical integer of t by %s", d)
-				if ok {
-					nativePow = true
+				ok := got.Equal(want)
+				detail := fmt.Sprintf("receiver is %s; expected (Canon s)^(Canon t) mod n through math/big.Exp", got)
+				if base, T, isExp := absint.ExpOf(got); isExp && !ok {
+					// a native exponentiation over the Fiat arithmetic: the receiver is the formal power s^T; T must be the
+					// canonical integer of t, compared in the basis of the exponent's digit tests (as in C01)
+					bitsOfT := absint.TInt(0)
+					for i := 0; i < 256; i++ {
+						bitsOfT = bitsOfT.Add(absint.BIT(ct, i).Scale(new(big.Int).Lsh(big.NewInt(1), uint(i))))
+					}
+					Tc := absint.CompleteFamilies(it.DeepApplyTerm(T))
+					d := Tc.Sub(absint.DigitBasis(it.DeepApplyTerm(bitsOfT), Tc))
+					dc, isC := d.IsConst()
+					ok = base.Equal(s) && isC && dc.Sign() == 0
+					detail = fmt.Sprintf("receiver is the power s^T computed by a native exponentiation; T differs from the canonical integer of t by %s", d)
+					if ok {
+						nativePow = true
+					}
 				}
-			}
-			for _, e := range eventsOf(res, "modexp") {
-				parts := strings.Split(e.Msg, "|")
-				if len(parts) == 3 && (parts[0] != cs.Key() || parts[1] != ct.Key() || parts[2] != nT.Key()) {
-					detail += "; Exp is called with (base, exponent, modulus) = other than (Canon s, Canon t, n)"
+				for _, e := range eventsOf(res, "modexp") {
+					parts := strings.Split(e.Msg, "|")
+					if len(parts) == 3 && (parts[0] != cs.Key() || parts[1] != ct.Key() || parts[2] != nT.Key()) {
+						detail += "; Exp is called with (base, exponent, modulus) = other than (Canon s, Canon t, n)"
+					}
 				}
+				okText := "receiver = (Canon s)^(Canon t) mod n: Exp(base = s, exponent = t, modulus = n), result left-padded to 32 bytes and decoded"
+				if nativePow {
+					okText = "receiver = s^T with T = Σ 2^i·BIT(Canon t, i) = Canon t: a native exponentiation whose digits, table look-ups, squarings and multiplications were followed as formal powers"
+				}
+				r.Check(ok, "C06.pow", construct, pos, okText, detail)
 			}
-			okText := "receiver = (Canon s)^(Canon t) mod n: Exp(base = s, exponent = t, modulus = n), result left-padded to 32 bytes and decoded"
-			if nativePow {
-				okText = "receiver = s^T with T = Σ 2^i·BIT(Canon t, i) = Canon t: a native exponentiation whose digits, table look-ups, squarings and multiplications were followed as formal powers"
+			if aliased {
+				return
 			}
-			r.Check(ok, "C06.pow", construct, pos, okText, detail)
-		}
-		if tv, w := m.scalarVal(it, it.InputRoots()[1]); w != "" || !tv.Equal(t) {
-			r.Fail("C06.pow", construct+" operand", pos, "the exponent operand is modified")
-		}
-	})
-	r.Check(seen["t = 0"] >= 1 && seen["t = 1"] >= 1 && seen["general exponent"] >= 1, "C06.pow-paths", "Scalar.Pow", pos, fmt.Sprintf("paths: %v", seen), fmt.Sprintf("expected the three classes t = 0, t = 1, general; found %v", seen))
+			if tv, w := m.scalarVal(it, it.InputRoots()[1]); w != "" || !tv.Equal(t) {
+				r.Fail("C06.pow", construct+" operand", pos, "the exponent operand is modified")
+			}
+		})
+		r.Check(seen["t = 0"] >= 1 && seen["t = 1"] >= 1 && seen["general exponent"] >= 1, "C06.pow-paths", "Scalar.Pow"+tag, pos, fmt.Sprintf("paths: %v", seen), fmt.Sprintf("expected the three classes t = 0, t = 1, general; found %v", seen))
+	}
+	runPow(false, t, ct, "")
+	// the exponent is the receiver itself (s.Pow(s)): the same obligations with t := s
+	runPow(true, s, cs, " (exponent is the receiver)")
 	// nil exponent
 	explore(p, absint.Config{}, fn, func(it *absint.Interp) []absint.Value {
 		return []absint.Value{ptr(m.newScalar(it, "s", s)), absint.Nil{}}
